@@ -308,6 +308,124 @@ func c20Lifecycle(chk *fw.Check) int {
 	return n
 }
 
+// c20Special: two life-cycle histories beyond plain cycles.
+// (1) Cleanup while a refresh is in the middle of its download (the refresh finishes afterwards): nothing of the
+//
+//	finished refresh may hold the work_dir - no open database, the next Provision on it succeeds.
+//
+// (2) Exclusive registration: A live; B on the same work_dir is rejected and cleaned up (as caddy does with a module
+//
+//	whose Provision failed); C on the same work_dir must still be rejected; after A's Cleanup D is accepted.
+func c20Special(chk *fw.Check) int {
+	p := world.Std()
+	n := 0
+	v1 := world.SimpleCRL(p.CA, 1, 901).DER()
+	v2 := world.SimpleCRL(p.CA, 2, 901, 902).DER()
+	for _, disk := range []bool{false, true} {
+		for _, src := range []string{"cdp", "crl_urls"} {
+			n++
+			sig := fmt.Sprintf("backend=%s source=%s", be(disk), src)
+			res := seqWorld(func() {
+				dir := FreshDir("c20i")
+				defer os.RemoveAll(dir)
+				net := world.NewNet()
+				net.Serve(urlA, "v1", v1)
+				o := CWOpt{Disk: disk, SigMode: config.SignatureValidationModeVerify, Dir: dir, Net: net, Trusted: []*x509.Certificate{p.CA.Cert}, Interval: "10m"}
+				leaf := world.Leaf(p.CA, bi(901), nil, nil)
+				if src == "crl_urls" {
+					o.URLs = []string{urlA}
+				} else {
+					leaf = world.Leaf(p.CA, bi(901), []string{urlA}, nil)
+				}
+				w := NewCW(o)
+				if err := w.Provision(); err != nil {
+					chk.Violation("C20|cycle-provision-fails|"+sig, err.Error(), nil)
+					return
+				}
+				vsched.Drain()
+				if v := w.Lookup(leaf, world.Chain(leaf, p.CA, p.Root)); v.String() != "REVOKED" {
+					chk.Violation("C20|cycle-lookup|"+sig, "listed certificate => "+v.String()+" "+v.Err, nil)
+					return
+				}
+				vsched.Drain()
+				// the next download takes 5 s: the tick starts the refresh, Cleanup comes while it is downloading
+				net.Routes[urlA] = &world.Behaviour{Label: "v2-slow", Body: v2, Delay: 5 * time.Second}
+				hits := len(net.Hits)
+				vsched.Advance(10*time.Minute + time.Second)
+				if len(net.Hits) == hits {
+					chk.Violation("C20|harness|no-refresh-started|"+sig, "the tick did not start a download", nil)
+					return
+				}
+				if err := w.Chk.Cleanup(); err != nil {
+					chk.Violation("C20|cleanup-error|"+sig, err.Error(), nil)
+				}
+				vsched.Advance(time.Minute) // the download ends, the refresh runs to its end
+				vsched.Drain()
+				if live, sites := vsched.Live(); live > 0 {
+					chk.Violation("C20|background-activity-after-cleanup", fmt.Sprintf("%s Cleanup during a refresh: %d goroutine(s) still alive: %v", sig, live, sites), nil)
+				}
+				if open := vleveldb.OpenPaths(); len(open) > 0 {
+					chk.Violation("C20|database-handle-open-after-cleanup|"+sig+" cleanup-during-refresh", fmt.Sprintf("a refresh which was downloading when Cleanup ran left %d database handle(s) open: %v", len(open), open), nil)
+				}
+				if _, tmps, other := ListDir(dir); len(tmps) > 0 || len(other) > 0 {
+					chk.Violation("C20|residue-after-cleanup|"+sig+" cleanup-during-refresh", fmt.Sprintf("work_dir holds %v %v", tmps, other), nil)
+				}
+				net.Serve(urlA, "v2", v2)
+				w2 := NewCW(o)
+				if err := w2.Provision(); err != nil {
+					chk.Violation("C20|cycle-provision-fails|"+sig+" cleanup-during-refresh", "Provision on the same work_dir after a Cleanup which came during a refresh: "+err.Error(), nil)
+					return
+				}
+				vsched.Drain()
+				w2.Chk.Cleanup()
+				vsched.Drain()
+			})
+			if res.Verdict != vsched.OK {
+				chk.Violation("C20|cycle-"+res.Verdict.String()+"|"+sig+" cleanup-during-refresh", firstLines(res.Detail, 5), nil)
+			}
+		}
+		n++
+		res := seqWorld(func() {
+			dir := FreshDir("c20x")
+			defer os.RemoveAll(dir)
+			net := world.NewNet()
+			o := CWOpt{Disk: disk, SigMode: config.SignatureValidationModeVerify, Dir: dir, Net: net}
+			a := NewCW(o)
+			if err := a.Provision(); err != nil {
+				chk.Violation("C20|cycle-provision-fails|exclusive "+be(disk), err.Error(), nil)
+				return
+			}
+			vsched.Drain()
+			b := NewCW(o)
+			if err := b.Provision(); err == nil {
+				chk.Violation("C20|work_dir-shared|second-instance-accepted|"+be(disk), "a second instance was provisioned on the work_dir of a live one", nil)
+				return
+			}
+			b.Chk.Cleanup() // what caddy does with a module whose Provision failed
+			vsched.Drain()
+			c := NewCW(o)
+			if err := c.Provision(); err == nil {
+				chk.Violation("C20|work_dir-shared|after-rejected-duplicate-was-cleaned-up|"+be(disk), "the work_dir of a live instance was handed out again after a rejected duplicate instance had been cleaned up", nil)
+				c.Chk.Cleanup()
+			}
+			a.Chk.Cleanup()
+			vsched.Drain()
+			d := NewCW(o)
+			if err := d.Provision(); err != nil {
+				chk.Violation("C20|cycle-provision-fails|exclusive-after-release "+be(disk), err.Error(), nil)
+				return
+			}
+			vsched.Drain()
+			d.Chk.Cleanup()
+			vsched.Drain()
+		})
+		if res.Verdict != vsched.OK {
+			chk.Violation("C20|cycle-"+res.Verdict.String()+"|exclusive "+be(disk), firstLines(res.Detail, 5), nil)
+		}
+	}
+	return n
+}
+
 // c20Foreign: startup sweep with foreign entries in the work_dir.
 func c20Foreign(chk *fw.Check) int {
 	p := world.Std()
@@ -433,7 +551,7 @@ func RunC20(tier string, args []string) int {
 		"foreign entries that DO match crl_*_tmp are not judged",
 	}
 	evals, ids := c20LocationPart(chk, tier)
-	cycles := c20Lifecycle(chk)
+	cycles := c20Lifecycle(chk) + c20Special(chk)
 	foreign := c20Foreign(chk)
 	hst := c20Histories(chk, tier)
 	cov := fw.Coverage{
